@@ -439,6 +439,7 @@ def check_ranges(ctx, rep):
         # through try_into().unwrap()
         chain = []
         v = r
+        payload_of = None
         for _ in range(8):
             if v[0] == 'call' and (v[1].endswith('::unwrap') or v[1].endswith('try_into') or v[1].endswith('TryInto<U>>::try_into')
                                    or (v[1].startswith('compiler::') and len(v[2]) == 1 and 'Compiler' not in v[1])):
@@ -446,6 +447,7 @@ def check_ranges(ctx, rep):
                 continue
             if v[0] == 'okval':
                 v = v[1]
+                payload_of = v
                 continue
             if v[0] == 'cast':
                 v = v[1]
@@ -469,7 +471,7 @@ def check_ranges(ctx, rep):
         else:
             from rules import c05 as _c05
             yielded = _c05._yielded_index(v, p.env)
-            ok = (v[0] in ('field', 'downcast') and 'position' in show(v)) or (yielded is not None and 'f%d' % next((i for i, f_ in enumerate(F.adt('compiler::Compiler')['variants'][0]['fields']) if f_['name'] == 'constants'), -1) in str(yielded))
+            ok = (v[0] in ('field', 'downcast') and 'position' in show(v)) or (payload_of is v and v[0] == 'call' and v[1].endswith(('::position', '::rposition'))) or (yielded is not None and 'f%d' % next((i for i, f_ in enumerate(F.adt('compiler::Compiler')['variants'][0]['fields']) if f_['name'] == 'constants'), -1) in str(yielded))
             rep.ob(ok, 'R02.6', fn.path, 'existing constant', 'returns an index the standard library yielded for the constant pool (position / enumerate): %s' % show(v), fn.loc())
     rep.count('add_constant_paths', n)
     check_frame_size(ctx, rep, 'R02.6')
